@@ -48,8 +48,6 @@ class ProcessingLoop(Contract):
         f = dict(wf_world(s))
         f["self-is-engine"] = a.self.e == W.ENG
         f["registry-wf"] = wf_registry(s)
-        # case (c): the caller has just put an item (an obligation at every call site, see C11)
-        f["nonrtc-queue-nonempty"] = z3.Implies(z3.Not(rtc(s)), qh(s) < qt(s))
         f["queue-items-valid"] = queue_items_valid(s)
         from .model import wf_class
         f.update(wf_class(s))
@@ -59,11 +57,15 @@ class ProcessingLoop(Contract):
         res = ref_of(r)
         nested = z3.And(rtc(s0), locked(s0))
         outer = z3.And(rtc(s0), z3.Not(locked(s0)))
-        nonrtc = z3.Not(rtc(s0))
         n0, h0, t0 = s0.g("ntrig"), qh(s0), qt(s0)
+        nonrtc = z3.And(z3.Not(rtc(s0)), h0 < t0)
         k = z3.Const("k!pl", Int)
         m = z3.Const("m!pl", Int)
         f = {
+            # (c') non-RTC with nothing queued (re-activation, resume over a stored state): a no-op
+            "C11|nonrtc-empty:no-op": z3.Implies(z3.And(z3.Not(rtc(s0)), h0 == t0), z3.And(
+                res == NONE, s.g("ntrig") == n0, s.g("ng") == s0.g("ng"), mstate(s) == mstate(s0),
+                qh(s) == h0, qt(s) == t0, locked(s) == locked(s0))),
             # (a) nested send: queued, not started, returns None
             "nested:returns-None": z3.Implies(nested, res == NONE),
             "nested:nothing-triggered": z3.Implies(nested, z3.And(
@@ -101,8 +103,9 @@ class ProcessingLoop(Contract):
     def exc_post(self, s0, s, a, x):
         nested = z3.And(rtc(s0), locked(s0))
         outer = z3.And(rtc(s0), z3.Not(locked(s0)))
-        nonrtc = z3.Not(rtc(s0))
+        nonrtc = z3.And(z3.Not(rtc(s0)), qh(s0) < qt(s0))
         return {
+            "C11|nonrtc-empty:never-raises": z3.Not(z3.And(z3.Not(rtc(s0)), qh(s0) == qt(s0))),
             "nested:never-raises": z3.Not(nested),
             "outer:lock-released-on-any-exception": z3.Implies(outer, z3.Not(locked(s))),
             "outer:queue-cleared-on-Exception": z3.Implies(z3.And(outer, is_exception(x)), qh(s) == qt(s)),
